@@ -40,6 +40,7 @@ THEOREMS = [
     "RefineImgIo2.v3d_init_eq", "RefineImgIo2.v3draw_init_eq", "RefineImgIo2.v3dpbd_init_eq", "RefineImgIo2.imagestack_get_full_eq",
     "RefineImgIo2.gray_get_full_eq", "RefineImgIo2.gray_spec", "RefineImgIo2.frameOpt_spec", "RefineImgIo2.transform_nd_refines",
     "RefineImgIo2.transform_nd_eq_transform", "RefineImgIo2.gray_getitem_never_returns", "RefineImgIo2.gray_init_eq",
+    "RefineImgIo2.tostack_init_scalar_eq", "RefineImgIo2.tostack_init_array_eq",
     "C20.generated_call_layout", "C20.generated_call_empty", "C20.generated_save_tif_writes", "C20.generated_raster_file_roundtrip",
     "C20.generated_raster_file_single_plane", "C20.generated_raster_file_empty", "C20.generated_codec_inits", "C20.generated_get_full",
     "C20.generated_call_every_tree",
@@ -1247,7 +1248,7 @@ class ImgIo2Gen(Suite):
     stand-in, and a real rasterisation whose sampler answers are recorded and handed to the generated `transform`"""
     name = "c20.imgio2-gen"
     case_timeout = 60
-    OPS = ["call", "savew", "saveio", "nrrd", "v3d", "v3draw", "v3dpbd", "full", "gray", "frame", "grayget"]
+    OPS = ["call", "savew", "saveio", "nrrd", "v3d", "v3draw", "v3dpbd", "full", "gray", "frame", "grayget", "init"]
 
     def cases(self, rng, tier, widen):
         n = 60 if tier == "thorough" or widen else 24
@@ -1263,6 +1264,9 @@ class ImgIo2Gen(Suite):
             elif op in ("nrrd", "v3d", "v3draw", "v3dpbd"):
                 rank = rng.choice([3, 4, 4, 2, 5]) if rng.random() < 0.3 else rng.choice([3, 4])
                 c.update(kind=rng.choice(["u8", "u16", "f32"]), shape=[rng.randint(1, 3) for _ in range(rank)], to=rng.choice([None, "u8", "u16", "f32"]))
+            elif op == "init":
+                q = lambda: rng.choice([1, 2, 3, 0.5, 0.75, 1.25, 4])
+                c["res"] = q() if rng.random() < 0.4 else [q() for _ in range(rng.choice([3, 3, 3, 1, 2, 4, 0]))]
             elif op == "grayget":
                 c.update(kind=rng.choice(["u8", "f32"]), shape=[rng.randint(1, 3) for _ in range(3)] + [1])
                 c["key"] = [rng.randint(-d - 1, d) for d in c["shape"][:3]]
@@ -1338,6 +1342,8 @@ class ImgIo2Gen(Suite):
                         return {"arr": _arr_text(st.get_full()), "warnings": len([w for w in ws if "reset unexcept axes" in str(w.message)])}
                     finally:
                         shutil.rmtree(tmp, ignore_errors=True)
+                if op == "init":
+                    return {"res": [str(Fraction(float(v))) for v in ToImageStack(case["res"]).resolution.tolist()]}
                 a = None if op == "frame" else self.array(case)
                 if op in ("nrrd", "v3d", "v3draw", "v3dpbd"):
                     to = None if case["to"] is None else _DT[case["to"]]
@@ -1390,6 +1396,10 @@ class ImgIo2Gen(Suite):
 
     def lines(self, case, res):
         op = case["op"]
+        if op == "init":
+            scalar = not isinstance(case["res"], list)
+            vals = [case["res"]] if scalar else case["res"]
+            return [(f"gtsinit res={','.join(str(Fraction(float(v))) for v in vals)} scalar={int(scalar)}", "E" if "exc" in res else ",".join(res["res"]))]
         if op == "frame":
             if "exc" in res:
                 return []
